@@ -5,8 +5,10 @@ package main
 
 import (
 	"context"
+	"encoding/binary"
 	"flag"
 	"fmt"
+	"math"
 	"math/big"
 	"os"
 	"strings"
@@ -28,6 +30,9 @@ type gen struct {
 	cf    *vx.CasesFile
 	part  string
 	fails int
+	// set by the first stream-alloc failure: the implementation allocates what a length field claims, so a later case
+	// claiming 2^40 bytes would kill the harness (out of memory is fatal in Go) and with it the failure already recorded
+	allocBroken bool
 }
 
 func (g *gen) add(term string, desc map[string]any, key string, nontrivial bool) {
@@ -376,7 +381,7 @@ func genRop(r *vx.Rng) rop {
 	case 0:
 		return ropT(r.Intn(12))
 	case 1:
-		return ropBytes(vx.Pick(r, []int64{0, 1, 3, 8, 100, 4096, 4097, 1 << 30, 1 << 62, -1, -5}))
+		return ropBytes(vx.Pick(r, []int64{0, 1, 3, 8, 100, 4096, 4097, 1 << 20, 1<<20 + 1, 1 << 30, 1 << 62, -1, -5}))
 	case 2, 3:
 		return ropBytesSize(l)
 	case 4:
@@ -393,6 +398,10 @@ func (g *gen) judgeRead(o rop, kind string, data []byte, what string) readObs {
 	if o.seek && kind != "plain" && kind != "custom" {
 		kind = "custom"
 	}
+	if g.allocBroken && o.claimed(data) > 1<<28 {
+		g.st.Count("read.skipped-after-alloc-failure")
+		return readObs{}
+	}
 	ob, evs := runRead(o, kind, data, g.r)
 	desc := map[string]any{"what": what, "data": hexs(data), "op": o.term, "reader": kind, "events": evs}
 	g.add(readCaseT(data, evs, o, ob), desc, "read|"+o.kind+"|"+kind+"|"+what+"|"+ob.res[:min(len(ob.res), 14)], kind != "plain" || o.pfx > 0)
@@ -404,8 +413,16 @@ func (g *gen) judgeRead(o rop, kind string, data []byte, what string) readObs {
 		g.fail(map[string]any{"sig": "stream-panic", "data": hexs(data), "op": o.term, "reader": kind, "panic": fmt.Sprint(ob.pv)})
 	case ob.consumed > len(data):
 		g.fail(map[string]any{"sig": "stream-consumed-gt-len", "data": hexs(data), "op": o.term, "reader": kind})
-	case ob.alloc > allocBound(len(data)):
-		g.fail(map[string]any{"sig": "stream-alloc", "data": hexs(data), "op": o.term, "reader": kind, "alloc": ob.alloc, "bound": allocBound(len(data))})
+	case ob.alloc > streamAllocBound(len(data), o.claimed(data)):
+		// more than min(claimed length, 1 MiB) + 64 KiB + 64 bytes per byte of input: the allocation follows a length
+		// argument / length prefix that the data does not back
+		g.allocBroken = true
+		g.fail(map[string]any{"sig": "stream-alloc", "data": hexs(data), "op": o.term, "reader": kind, "alloc": ob.alloc,
+			"claimed": o.claimed(data), "bound": streamAllocBound(len(data), o.claimed(data))})
+	case o.pfx == 8 && len(data) >= 8 && prefixValue(data[:8]) > math.MaxInt64 && ob.err == nil:
+		// a uint64 size prefix >= 2^63 does not fit int: every helper that reads one has to report an error
+		// (before c8478d2: ReadCollection = empty collection, PeekSize = negative size)
+		g.fail(map[string]any{"sig": "stream-size-prefix-overflow-accepted", "data": hexs(data), "op": o.term, "reader": kind, "result": ob.res})
 	case ob.iters > len(data)+1:
 		g.fail(map[string]any{"sig": "stream-iterations", "data": hexs(data), "op": o.term, "reader": kind, "iterations": ob.iters})
 	}
@@ -447,6 +464,7 @@ func (g *gen) directedPrims() {
 	g.judgeRead(ropBytesSize(serializer.SeriLengthPrefixTypeAsUint32), "plain", d02a, "directed-D02c")
 	g.judgeRead(ropObjectSize(serializer.SeriLengthPrefixTypeAsUint64, cbKind{kind: 0}), "plain", []byte{0, 0, 0, 0, 0, 0, 0, 0x80, 1}, "directed-D02c")
 	g.judgeRead(ropBytes(1<<62), "onebyte", []byte{1, 2, 3}, "directed-D02c")
+	g.directedThreshold()
 	// D02d (known finding): zero-size items iterate prefix-many times. Go side only (the record of 65535 items is capped).
 	{
 		e := seqElem(serializer.SeriLengthPrefixTypeAsUint16, itemKind{kind: 0, k: 0}, nil, false, 0, 0, 0)
@@ -457,6 +475,44 @@ func (g *gen) directedPrims() {
 		g.st.Count("directed.D02d.iterations." + fmt.Sprint(o.seqIters))
 		ob, _ := runRead(ropCollection(serializer.SeriLengthPrefixTypeAsUint16, 0), "plain", []byte{0xff, 0xff}, g.r)
 		g.st.Count("directed.D02d.collection-iterations." + fmt.Sprint(ob.iters))
+	}
+}
+
+// directedThreshold: the allocation scheme of ReadBytes and the sizeToInt guard of readFixedSize (c8478d2).
+func (g *gen) directedThreshold() {
+	const mib = 1 << 20
+	l32, l64 := serializer.SeriLengthPrefixTypeAsUint32, serializer.SeriLengthPrefixTypeAsUint64
+	// a length at / around / far above the 1 MiB threshold that no data backs: at most min(length, 1 MiB) up front
+	for _, n := range []int64{mib - 1, mib, mib + 1, 2 * mib, 1 << 30, math.MaxInt64} {
+		for _, data := range [][]byte{{}, {1, 2, 3}} {
+			for _, kind := range []string{"plain", "onebyte", "custom"} {
+				g.judgeRead(ropBytes(n), kind, data, "directed-threshold-unbacked")
+			}
+		}
+	}
+	// ... backed by all of the data (+ 2 bytes that must stay unread), or by all but the last byte
+	withTail := func(n int) []byte { return append(patBytes(n), 0xee, 0xef) }
+	g.judgeRead(ropBytes(mib-1), "plain", withTail(mib-1), "directed-threshold-full")
+	g.judgeRead(ropBytes(mib), "half", withTail(mib), "directed-threshold-full")
+	g.judgeRead(ropBytes(mib+1), "bigscript", withTail(mib+1), "directed-threshold-full")
+	g.judgeRead(ropBytes(mib+1), "plain", patBytes(mib+1), "directed-threshold-full")
+	g.judgeRead(ropBytes(mib+1), "plain", patBytes(mib), "directed-threshold-short-by-one") // buffer full, grown, then EOF
+	g.judgeRead(ropBytes(mib), "dataerr", patBytes(mib-1), "directed-threshold-short-by-one")
+	pre32 := binary.LittleEndian.AppendUint32(nil, mib+1)
+	g.judgeRead(ropBytesSize(l32), "half", append(pre32, withTail(mib+1)...), "directed-threshold-full")
+	pre64 := binary.LittleEndian.AppendUint64(nil, 2*mib+3)
+	g.judgeRead(ropBytesSize(l64), "bigscript", append(pre64, withTail(2*mib+3)...), "directed-threshold-full") // 1 MiB -> 2 MiB -> 2 MiB + 3
+	// size prefixes at the int boundary: 2^63-1 is a size (nothing backs it), 2^63 and 2^64-1 are errors for every helper
+	for _, pv := range []uint64{1<<63 - 1, 1 << 63, math.MaxUint64} {
+		for _, tail := range [][]byte{{}, {1, 2, 3}} {
+			data := append(binary.LittleEndian.AppendUint64(nil, pv), tail...)
+			for _, o := range []rop{ropPeek(l64), ropCollection(l64, 1), ropBytesSize(l64),
+				ropObjectSize(l64, cbKind{kind: 0}), ropObjectSize(l64, cbKind{kind: 2, k: 2})} {
+				for _, kind := range []string{"plain", "half", "custom"} {
+					g.judgeRead(o, kind, data, "directed-size-prefix")
+				}
+			}
+		}
 	}
 }
 
@@ -650,7 +706,7 @@ func (g *gen) directedStream() {
 			run: func(w *stream.ByteBuffer) error { return stream.WriteBytes(w, data) }}
 		g.streamPair(o, []string{kind})
 	}
-	// ReadBytes across the 4 KiB chunk boundary of the D02c repair
+	// a few KiB (the chunk boundaries of the first D02c repair; since c8478d2 one exact buffer and one io.ReadFull)
 	for i, n := range []int{4096, 4097, 8200} {
 		big := rbytes(g.r, n)
 		l := []serializer.SeriLengthPrefixType{serializer.SeriLengthPrefixTypeAsUint16, serializer.SeriLengthPrefixTypeAsUint32, serializer.SeriLengthPrefixTypeAsUint64}[i]
@@ -662,6 +718,22 @@ func (g *gen) directedStream() {
 	o := wop{kind: "bytes", term: joinT("WBytes", bytesT(big)), want: joinT("SVBytes", bytesT(big)), read: ropBytes(4100),
 		run: func(w *stream.ByteBuffer) error { return stream.WriteBytes(w, big) }}
 	g.streamPair(o, []string{"onebyte"})
+	// ReadBytes at the 1 MiB threshold of c8478d2 (exact buffer below and at it, a doubling buffer above: 2^20+1 grows
+	// once, 2^21+5 twice), read back under readers that split the reads differently
+	const mib = 1 << 20
+	for i, n := range []int{mib - 1, mib, mib + 1, 2*mib + 5} {
+		data := patBytes(n)
+		l := []serializer.SeriLengthPrefixType{0, serializer.SeriLengthPrefixTypeAsUint32, serializer.SeriLengthPrefixTypeAsUint64, 0}[i]
+		var o wop
+		if l == 0 {
+			o = wop{kind: "bytes", term: joinT("WBytes", bytesT(data)), want: joinT("SVBytes", bytesT(data)), read: ropBytes(int64(n)),
+				run: func(w *stream.ByteBuffer) error { return stream.WriteBytes(w, data) }}
+		} else {
+			o = wop{kind: "bytessize", term: joinT("WBytesSize", lptT(l), bytesT(data)), want: joinT("SVBytes", bytesT(data)), read: ropBytesSize(l),
+				run: func(w *stream.ByteBuffer) error { return stream.WriteBytesWithSize(w, data, l) }}
+		}
+		g.streamPair(o, [][]string{{"plain"}, {"half"}, {"bigscript", "dataerr"}, {"bigscript"}}[i])
+	}
 }
 
 func (g *gen) streamPart(n int) {
